@@ -19,6 +19,13 @@ Kinds (what the application hands to circuits.web):
   push                               terminal-example style: response.stream=True, return response with an empty
                                      body, the application then fires stream(response, chunk)... stream(response, None)
   resp                               response.body=<str|bytes|list>; return response
+  pipe                               a file-like object whose read(n) may return FEWER than n bytes before EOF (pipe, socket
+                                     file, decompressor): ``items`` script the piece sizes (PIPE_SIZES), one piece per read()
+                                     call, at most n bytes; expected body = all pieces.  stream as for ``file``
+  ownresp                            the handler answers with a Response object it created itself (``Response(self.request)``,
+                                     a legal result type: HTTP hands a returned Response straight to the ``response`` event);
+                                     served under its own path /o, so that every follow-up on the connection asks for a
+                                     DIFFERENT path
   status                             response.status=<201,202,404,500,413,206>; return str
   nobody                             response.status=<204,304,101>; return '' (a=even) or an application body (a=odd)
   forbidden notfound none missing    self.forbidden() / self.notfound() / return None / no such path
@@ -35,6 +42,7 @@ from hypothesis import strategies as st
 from circuits import BaseComponent, handler
 from circuits.web import Controller
 from circuits.web.events import stream as stream_event
+from circuits.web.wrappers import Response
 from circuits.web.exceptions import Forbidden, Gone, NotFound, Redirect, ServiceUnavailable
 from vlib import driver
 from vlib.httprig import Rig, decode_responses
@@ -44,6 +52,8 @@ STRS = ['hello', 'héllo wörld ✓', 'x', 'ab' * 150, '0\r\n\r\n']
 BYTESES = [b'bytes\xff\x00\r\n', b'b', b'0\r\n\r\n', b'\xe9' * 33]
 ITEMS = ['x', '', b'yz', 'é✓', b'\xff\xfe', 'c' * 5000, b'', 'tail\r\n']
 FILE_SIZES = [0, 1, 4095, 4096, 4097, 10000]
+PIPE_SIZES = [1, 700, 1000, 4096, 1500, 5000, 4095, 3000]   # bytes that "have arrived" when read() is called (same index range as ITEMS)
+READ_SIZE = 4096                                            # circuits.net.sockets.BUFSIZE, the n of file_generator's read(n)
 STATUSES = [201, 202, 404, 500, 413, 206]
 NOBODY = [204, 304, 101]
 HTTPEXC = [NotFound, Forbidden, Gone, ServiceUnavailable]
@@ -52,10 +62,10 @@ BIG = ''.join(chr(65 + (i * 7 + i // 26) % 26) for i in range(100000))
 
 BIG_BYTES = BIG.encode('utf-8')
 
-KINDS = ['str', 'bytes', 'empty', 'big', 'list', 'yields', 'file', 'servefile', 'gen', 'push', 'resp', 'status',
+KINDS = ['str', 'bytes', 'empty', 'big', 'list', 'yields', 'file', 'servefile', 'gen', 'push', 'resp', 'pipe', 'ownresp', 'status',
          'nobody', 'forbidden', 'notfound', 'none', 'missing', 'raisehttp', 'raise', 'yieldraise', 'filterraise', 'redirect', 'raiseredirect']
 # kinds after which circuits always closes the connection are drawn less often, so that sequences go on
-WEIGHTED = (['str', 'bytes', 'empty', 'list', 'yields', 'file', 'servefile', 'gen', 'push', 'resp', 'status', 'nobody'] * 3
+WEIGHTED = (['str', 'bytes', 'empty', 'list', 'yields', 'file', 'servefile', 'gen', 'push', 'resp', 'pipe', 'ownresp', 'status', 'nobody'] * 3
             + ['big', 'big'] + ['forbidden', 'notfound', 'none', 'missing', 'raisehttp', 'raise', 'yieldraise', 'filterraise', 'redirect', 'raiseredirect'])
 
 FX = os.path.join(tempfile.gettempdir(), 'verif-c15-fixtures')
@@ -90,6 +100,51 @@ def make_fixtures():
         with os.fdopen(fd, 'wb') as f:
             f.write(want)
         os.replace(tmp, p)
+
+
+def pipe_pieces(p):
+    """The scripted arrivals of a pipe-like body: piece j is distinguishable from every other piece."""
+    out = []
+    for j, i in enumerate(p['items']):
+        size = PIPE_SIZES[i % len(PIPE_SIZES)]
+        out.append(bytes((x * 13 + j * 7 + size) % 251 for x in range(size)))
+    return out
+
+
+def pipe_reads(pieces, n=READ_SIZE):
+    """Lengths of the non-empty results of successive read(n) calls on PipeLike(pieces)."""
+    out = []
+    for piece in pieces:
+        while len(piece) > n:
+            out.append(n)
+            piece = piece[n:]
+        out.append(len(piece))
+    return out
+
+
+class PipeLike:
+    """read(n) hands out what has 'arrived' so far: one scripted piece per call, at most n bytes; b'' only at EOF."""
+
+    def __init__(self, pieces):
+        self.pieces = list(pieces)
+        self.closed = False
+
+    def read(self, n=-1):
+        if not self.pieces:
+            return b''
+        piece = self.pieces.pop(0)
+        if n is not None and 0 <= n < len(piece):
+            piece, rest = piece[:n], piece[n:]
+            self.pieces.insert(0, rest)
+        return piece
+
+    def close(self):
+        self.closed = True
+
+
+def own_body(p):
+    a = p['a']
+    return [STRS[a % len(STRS)], BYTESES[a % len(BYTESES)], items_of(p)][a % 3]
 
 
 def enc(x):
@@ -136,6 +191,13 @@ class Root(Controller):
             res.body = f
             res.stream = False
             return res
+        if k == 'pipe':
+            f = PipeLike(pipe_pieces(p))
+            if p['stream']:
+                return f
+            res.body = f
+            res.stream = False
+            return res
         if k == 'servefile':
             out = self.serve_file(file_path(FILE_SIZES[a % len(FILE_SIZES)]))
             if not p['stream']:
@@ -173,6 +235,17 @@ class Root(Controller):
         if k == 'raiseredirect':
             raise Redirect('/t%d' % n)
         raise AssertionError('harness: unknown kind %r' % k)
+
+    def o(self, i=None):
+        # the application answers with a Response object of its own; the framework's self.response is never sent
+        n = int(i)
+        p = self.plan[n]
+        res = Response(self.request)
+        res.headers['X-Req'] = str(n)
+        if p['ctype']:
+            res.headers['Content-Type'] = 'text/plain; charset=utf-8'
+        res.body = own_body(p)
+        return res
 
     def y(self, event, i=None):
         # a generator handler runs after the expose() wrapper has returned, i.e. without self.request/self.response;
@@ -222,7 +295,7 @@ def expectation(p, n):
     # (X-Req is then optional, but must be right if present); Content-Type is only asserted for application bodies
     failure = k in ('raise', 'raisehttp', 'yieldraise', 'filterraise', 'raiseredirect', 'missing')
     hdrs = [('x-req?' if failure else 'x-req', str(n))]
-    if p['ctype'] and k in ('str', 'bytes', 'empty', 'big', 'list', 'yields', 'file', 'gen', 'push', 'resp', 'status'):
+    if p['ctype'] and k in ('str', 'bytes', 'empty', 'big', 'list', 'yields', 'file', 'gen', 'push', 'resp', 'pipe', 'ownresp', 'status'):
         hdrs.append(('content-type', 'text/plain; charset=utf-8'))
     st_, body = (200,), None
     if k == 'str':
@@ -241,6 +314,11 @@ def expectation(p, n):
             st_, body = (200, 404), None
     elif k in ('file', 'servefile'):
         body = file_bytes(FILE_SIZES[a % len(FILE_SIZES)])
+    elif k == 'pipe':
+        body = b''.join(pipe_pieces(p))
+    elif k == 'ownresp':
+        v = own_body(p)
+        body = b''.join(enc(x) for x in v) if isinstance(v, list) else enc(v)
     elif k == 'resp':
         v = [STRS[a % len(STRS)], BYTESES[a % len(BYTESES)], items_of(p)][a % 3]
         body = b''.join(enc(x) for x in v) if isinstance(v, list) else enc(v)
@@ -281,8 +359,12 @@ def normalise(p):
     return p
 
 
+def request_path(p):
+    return {'yields': '/y', 'yieldraise': '/y', 'missing': '/nope', 'ownresp': '/o'}.get(p['kind'], '/r')
+
+
 def request_bytes(p, n):
-    path = {'yields': '/y', 'yieldraise': '/y', 'missing': '/nope'}.get(p['kind'], '/r')
+    path = request_path(p)
     s = '%s %s?i=%d HTTP/%s\r\nHost: a\r\n' % (p['method'], path, n, p['ver'])
     if p['conn']:
         s += 'Connection: %s\r\n' % p['conn']
@@ -297,7 +379,8 @@ def wants_close(p):
 class C15(Prop):
     id = 'C15'
     rule = ('sequences of 1-4 (thorough: 1-6) requests on one connection of a socket-less circuits.web server; each request draws '
-            'handler result kind (23 kinds: str/bytes/empty/100 kB/list/yielding handler/file sizes 0..10000/serve_file/'
+            'handler result kind (25 kinds: str/bytes/empty/100 kB/list/yielding handler/file sizes 0..10000/serve_file/'
+            'pipe-like stream with scripted short reads/application-made Response object (own path /o)/'
             'generator body/pushed stream/explicit Response/status with body/204,304,101 with and without body/errors/'
             'raise, also after yields/redirect) x HTTP 1.0|1.1 x Connection absent|keep-alive|close x GET|HEAD x stream on|off x '
             'app Content-Type; raw bytes per request decoded by http.client; non-trivial = at least 2 requests '
@@ -306,6 +389,8 @@ class C15(Prop):
     assumptions = ('requests are not pipelined: request i+1 is sent after the server is quiescent on request i',
                    'text of framework-generated error/redirect pages is not asserted (only status, framing, app headers)',
                    'the server may always choose to close; only "announced <=> done" and "client asked for close => closed" are asserted',
+                   'a Response object made by the application carries the application\'s own close decision: "client asked for close => '
+                   'closed" is not asserted for it (announced <=> done is)',
                    'response.stream=True is only combined with iterator bodies (file, generator, pushed chunks), as in wsgi.py / examples')
     budget = {'quick': (1500, 4), 'thorough': (8000, 16)}
 
@@ -340,6 +425,8 @@ class C15(Prop):
             'gen': [{'items': i, 'stream': b} for i in seqs for b in (True, False)],
             'push': [{'items': i} for i in ([], [0], [0, 2], [5, 4])],
             'resp': [{'a': 0}, {'a': 1}, {'a': 2, 'items': [0, 1, 2]}],
+            'pipe': [{'items': i, 'stream': b} for i in ([], [0], [3], [5], [1, 2], [3, 1, 3], [2, 4, 3, 1, 7], [6, 5, 0]) for b in (True, False)],
+            'ownresp': [{'a': 0}, {'a': 1}, {'a': 2, 'items': [0, 1, 2]}, {'a': 2, 'items': []}],
             'status': [{'a': i} for i in range(len(STATUSES))],
             'nobody': [{'a': i} for i in range(2 * len(NOBODY))],
             'raisehttp': [{'a': 0}, {'a': 1}],
@@ -456,14 +543,21 @@ class C15(Prop):
                 return bad('close-mismatch', n, 'response %s close (version %s, Connection: %r, length %r, chunked %s) but the server %s the connection' % (
                     'announces' if r['will_close'] else 'does not announce', r['version'], got.get('connection'), r['length_header'], r['chunked'],
                     'closed' if closed else 'did not close'))
-            if wants_close(p) and not closed:
+            if wants_close(p) and not closed and p['kind'] != 'ownresp':
                 return bad('close-wish-ignored', n, 'client asked for a non-persistent connection, server kept it open')
 
             framing = ('none' if bodyless else 'chunked' if r['chunked'] else 'length' if r['length_header'] is not None else 'close')
             classes += ['kind:' + p['kind'], 'framing:' + framing, 'method:' + p['method'], 'http:' + p['ver'],
                         'conn:%s' % (p['conn'] or 'absent').lower(), 'status:%dxx' % (r['status'] // 100)]
-            if p['kind'] in ('file', 'servefile', 'gen'):
+            if p['kind'] in ('file', 'servefile', 'gen', 'pipe'):
                 classes.append('stream:' + ('on' if p['stream'] else 'off'))
+            if p['kind'] == 'pipe' and not bodyless:
+                reads = pipe_reads(pipe_pieces(p))
+                classes.append('pipe:short-read-before-eof' if any(x < READ_SIZE for x in reads[:-1]) else 'pipe:reads<=1-or-all-full')
+            if n > 0 and any(q['kind'] == 'ownresp' for q in reqs[:n]):
+                classes.append('follow-up-after-ownresp')
+                if request_path(p) != '/o':
+                    classes.append('follow-up-after-ownresp:other-path')
             if not closed:
                 classes.append('kept-alive')
             if n > 0:
